@@ -251,13 +251,14 @@ func (r *brRun) observe(body []byte) (shape, objs string) {
 }
 
 type brGen struct {
-	g     *rng
-	r     *brRun
-	tok   int
-	ids   []string
-	outs  []string    // H lines
-	order []string    // tokens in creation order
-	pend  []brPending // outcomes, not yet released
+	g           *rng
+	r           *brRun
+	tok         int
+	ids         []string
+	outs        []string     // H lines
+	order       []string     // tokens in creation order
+	pend        []brPending  // outcomes, not yet released
+	ctxCodeUsed map[int]bool // context-error codes already handed out as outcomes
 }
 
 func (s *brGen) newTok(reqNo int) string {
@@ -393,6 +394,14 @@ func (s *brGen) outcomes() {
 			m.code, m.msg = 1000+n, "e"+t
 			if s.g.chance(1, 4) {
 				m.code = -(40000 + n)
+			} else if c := pick(s.g, []int{-32096, -32097}); s.g.chance(1, 3) && !s.ctxCodeUsed[c] {
+				// the codes of context errors are error objects like any other to the bridge (each at most once
+				// per scenario: the monitors tell outcomes apart by their codes)
+				if s.ctxCodeUsed == nil {
+					s.ctxCodeUsed = map[int]bool{}
+				}
+				s.ctxCodeUsed[c] = true
+				m.code = c
 			}
 		}
 		if m.code != 0 {
